@@ -211,6 +211,7 @@ static bool mi_heap_is_default(const mi_heap_t* heap) {
 mi_heap_t* mi_heap_get_backing(void) {
   mi_heap_t* heap = mi_heap_get_default();
   mi_assert_internal(heap!=NULL);
+  if mi_unlikely(!mi_heap_is_initialized(heap)) return heap;  // the thread could not be initialized (out of memory): the empty heap has no `tld`
   mi_heap_t* bheap = heap->tld->heap_backing;
   mi_assert_internal(bheap!=NULL);
   mi_assert_internal(bheap->thread_id == _mi_thread_id());
